@@ -253,13 +253,54 @@ def _relabel(rng, names, pool):
     return new
 
 
+WIDE_POW2 = [10, 20, 30, 40, 50, 60]
+WIDE_DECIMAL = [1e-12, 1e-9, 1e-6, 1e6, 1e9, 1e12]
+
+
 def _multiplier(rng):
-    kind = rng.choice(["pow2", "dyadic", "arbitrary", "arbitrary"])
+    """c > 0.  The property quantifies over ALL positive multipliers: besides the moderate ones, powers of two far from 1
+    (the scaling itself is then exact in binary64, so the scaled scores are exactly c times the unscaled ones) and decimal
+    powers (inexact scaling).  A ranking step that is not scale free (rounds or thresholds the scores at an absolute
+    value) only shows when |c| * scale of the scores is far from 1."""
+    kind = rng.choice(["pow2", "dyadic", "arbitrary", "arbitrary", "pow2-wide", "pow2-wide", "decimal-wide"])
     if kind == "pow2":
         return kind, float(2.0 ** rng.choice([-3, -2, -1, 1, 2, 5]))
     if kind == "dyadic":
         return kind, rng.choice([3, 5, 7, 9, 11, 13]) / 8
+    if kind == "pow2-wide":
+        return kind, float(2.0 ** (rng.choice([-1, 1]) * rng.choice(WIDE_POW2)))
+    if kind == "decimal-wide":
+        return kind, rng.choice(WIDE_DECIMAL)
     return kind, math.exp(rng.uniform(math.log(0.01), math.log(100)))
+
+
+def _near_tie(rng, dm):
+    """two alternatives whose scores are close but clearly distinct (relative gap about 1e-6 ... 1e-3, far above rounding):
+    row i becomes a copy of row k that is slightly better on every criterion ("row": a dominated pair, every method
+    separates it) or on a single criterion ("cell").  Returns the tag of what was done."""
+    A, o = dm["matrix"], dm["objectives"]
+    m, n = len(A), len(o)
+    k = rng.randrange(m)
+    if m >= 3 and rng.random() < 0.7:
+        i = rng.choice([r for r in range(m) if r != k])
+    else:
+        A.append(None)
+        dm["alternatives"] = G.labels(rng, G.LABEL_POOL_ALT, m + 1)
+        i = m
+    how = rng.choice(["row", "row", "cell"])
+    # a power of two keeps dyadic cells exactly representable; otherwise any relative step in the range
+    eps = 2.0 ** -rng.randint(10, 20) if (dm["family"] == "dyadic" or rng.random() < 0.3) else 10 ** rng.uniform(-6, -3)
+    if how == "cell":
+        eps = min(eps * 16, 2.0 ** -9)
+    cols = range(n) if how == "row" else [rng.randrange(n)]
+    row = list(A[k])
+    for j in cols:
+        step = abs(row[j]) * eps
+        row[j] = row[j] + step if o[j] == 1 else (row[j] - step)
+    if dm.get("int_matrix"):
+        dm["int_matrix"] = False
+    A[i] = row
+    return "near-tie:" + how
 
 
 def _fix_constant_columns(rng, dm, positive):
@@ -321,6 +362,14 @@ def make_case(rng, kind, max_m=11):
                             for i in mtx for k in mtx if i < k)
         if weighter or zero_then_div:
             _fix_constant_columns(rng, dm, positive)
+    extra_tags = []
+    if name in HOMOGENEOUS:
+        if rng.random() < 0.4:
+            extra_tags.append(_near_tie(rng, dm))
+        if rng.random() < 0.2:  # the first presentation itself far from unit scale (exact: a power of two)
+            b = float(2.0 ** (rng.choice([-1, 1]) * rng.choice([20, 30, 40, 50])))
+            dm["weights"] = [w * b for w in dm["weights"]]
+            extra_tags.append("weights-prescaled:" + ("up" if b > 1 else "down"))
     m, n = len(dm["matrix"]), len(dm["objectives"])
     if m == n:  # never square
         extra = list(dm["matrix"][rng.randrange(m)]) if rng.random() < 0.3 else [G.value(rng, dm["family"], all(v > 0 for r in dm["matrix"] for v in r)) for _ in range(n)]
@@ -337,7 +386,7 @@ def make_case(rng, kind, max_m=11):
         "tau": _perm(rng, n, identity=mode in ("rows", "names")),
         "alts2": _relabel(rng, dm["alternatives"], G.LABEL_POOL_ALT) if mode in ("all", "names") else list(dm["alternatives"]),
         "crits2": _relabel(rng, dm["criteria"], G.LABEL_POOL_CRIT) if mode in ("all", "names") else list(dm["criteria"]),
-        "c": c, "c_kind": ckind,
+        "c": c, "c_kind": ckind, "gen_tags": extra_tags,
     }
 
 
@@ -424,7 +473,7 @@ def observe(case):
     with M.quiet():
         o = {"p1": _run(case["dm"], case, True), "p2": _run(presentation2(case), case, True)}
         if case["spec"]["name"] in HOMOGENEOUS:
-            o["p3"] = _run(presentation3(case), case, False)
+            o["p3"] = _run(presentation3(case), case, True)  # the data that reaches the method: the scale of P3's own scores
         return o
 
 
@@ -634,6 +683,23 @@ def judge(case, obs, replies):
     if any(not math.isfinite(v) for v in scales.values()):
         tg.append("skip:degenerate-topsis")
         return out
+    # ---- rounding is relative to the scale of the scores of EACH presentation.  P3's scores live on |c| x the scale of P1's for
+    # the methods of degree one in the weights (there `in P1 units` = divided by the ratio of the weight sums that reach the
+    # method), on P3's own log magnitudes for the multiplicative form, on the same [0, 1] for TOPSIS.  The margin of a pair is
+    # the larger of the two, expressed in P1 units: on correct code a pair further apart than that in P1 is further apart than
+    # 2e-9 x (its own scale) in P3 too, so it must keep its order there -- whatever c is.
+    scales3 = {}
+    if p3 is not None and "final" in p3:
+        s3 = _scales(case, p3)
+        W1 = float(np.sum(np.abs(np.array(p1["final"]["weights"], dtype=float))))
+        W3 = float(np.sum(np.abs(np.array(p3["final"]["weights"], dtype=float))))
+        unit = (W1 / W3) if (W1 > 0 and W3 > 0 and math.isfinite(W1 / W3)) else 1.0
+        for k, v in s3.items():
+            degree_one = (name in ("WSM", "WPM", "RatioMOORA", "RefPointMOORA") and k == "score") or k in ("ratio_score", "refpoint_score")
+            scales3[k] = v * unit if degree_one else v
+        if any(not math.isfinite(v) for v in scales3.values()):
+            tg.append("skip:degenerate-after-scaling")
+            return out
     # ---- by label: nothing below looks at positions, only at the names the results themselves carry
     names1 = [str(a) for a in case["dm"]["alternatives"]]
     m = len(names1)
@@ -674,9 +740,10 @@ def judge(case, obs, replies):
                     break
         return ok
 
-    def compare_order(pb, idx, which, key, r1, rb):
-        """pairwise relation of the ranks on pairs separated by more than the margin in P1"""
-        sc = scales[key] * amp
+    def compare_order(pb, idx, which, key, r1, rb, scaled=False):
+        """pairwise relation of the ranks on pairs separated by more than the margin in P1 (`scaled`: the other presentation is
+        P3, the margin is relative to the scale of each of the two presentations)"""
+        sc = (max(scales[key], scales3.get(key, 0.0)) if scaled else scales[key]) * amp
         margin = C.F(2e-9 * sc)
         s = [C.F(x) for x in p1[key]]
         for i in range(m):
@@ -684,6 +751,8 @@ def judge(case, obs, replies):
                 if abs(s[i] - s[k]) <= margin:
                     tg.append("near-tie-pair-skipped")
                     continue
+                if scaled and abs(s[i] - s[k]) <= 500000 * margin:
+                    tg.append("scaled:close-pair-compared")  # distinct scores, relative gap below 1e-3
                 a, b = _sgn(r1[i] - r1[k]), _sgn(rb[idx[i]] - rb[idx[k]])
                 if a != b:
                     prop(f"alternatives {alts1[i]!r} and {alts1[k]!r} are ordered differently in the two presentations ({which}, by {key})",
@@ -720,7 +789,7 @@ def judge(case, obs, replies):
             for col, key in enumerate(("ratio_score", "refpoint_score", "fmf_score")):
                 r1 = [row[col] for row in p1["rank_matrix"]]
                 rb = [row[col] for row in pb["rank_matrix"]]
-                if not compare_order(pb, idx, which, key, r1, rb):
+                if not compare_order(pb, idx, which, key, r1, rb, scaled=which.startswith("weights")):
                     same_rm = False
                     break
                 if any(_sgn(r1[i] - r1[k]) != _sgn(rb[idx[i]] - rb[idx[k]]) for i in range(m) for k in range(i + 1, m)):
@@ -747,7 +816,7 @@ def judge(case, obs, replies):
             compare_order(p2, idx2, "permuted / renamed", key, p1["rank"], p2["rank"])
         if p3 is not None:
             if all(math.isfinite(x) for x in p3[key]):
-                compare_order(p3, idx3, f"weights x {case['c']!r}", key, p1["rank"], p3["rank"])
+                compare_order(p3, idx3, f"weights x {case['c']!r}", key, p1["rank"], p3["rank"], scaled=True)
             else:
                 prop(f"scores are not finite after multiplying the weights by {case['c']!r}", p1[key], p3[key])
 
@@ -817,5 +886,9 @@ def tags(case, obs):
     rows = [tuple(r) for r in case["dm"]["matrix"]]
     if len(set(rows)) < len(rows):
         t.append("duplicated-rows")
+    t.extend(case.get("gen_tags", []))
+    if name in HOMOGENEOUS:
+        e = abs(math.log2(case["c"]))
+        t.append("log2|c|:" + ("<=5" if e <= 5 else "5-25" if e <= 25 else ">25"))
     t.extend(obs.get("_tags", []))
     return t
